@@ -112,6 +112,11 @@ NOTES = {
              "in Boss.rx_welcome), not something the server said; the environment of C08/C14 has applications that only make the "
              "documented API calls — outside the environment, kept for the record (its author flagged it as borderline).",
     "C14_i": "a third change the C14 round-4 author left as a spare (RendezvousConnector.stop() clears _ws).",
+    "C03_k": "time-slices EventualQueue._turn on wall-clock time: manifests only when a callback takes >= 10 ms of real time inside one turn; "
+             "the checks run on a virtual clock — detected at proof level only (WV.Props.Common.eventual_queue_is_plain_fifo, correspondence), "
+             "no concrete input.",
+    "C09_m": "only the closed notification is lost (key exchange and message delivery still hold; its author placed it at the edge of C09's "
+             "wording): caught by C08 (close-never-completes), not by C09.",
     "C04_a": "transit replay acceptance: caught by C06 (the channel property C04 builds on).",
 }
 
